@@ -7,7 +7,7 @@ import json, os, shutil, subprocess, sys, time
 HERE = os.path.dirname(os.path.dirname(os.path.abspath(__file__)))
 sys.path.insert(0, HERE)
 from vlib import runner, registry
-D = "/var/tmp/dev"
+D = os.environ.get("DEV_DIR", "/var/tmp/dev")
 def weave():
     ws, vc = D + "/ws", D + "/verif"
     tgt = None
